@@ -342,7 +342,8 @@ def step (_ : Unit) (line : String) : Unit × String :=
     -- manual probe for requests too large to print: only `R <ver> <accounted> len=<n>`; verdict: n ≤ limit
     let limit := ((rest[5]?).bind (·.toInt?)).getD 0
     let lens := (toks impl).filterMap fun t => if t.startsWith "len=" then (t.drop 4).toString.toInt? else none
-    let v := if lens.any (· > limit) then "0:large-request-exceeds-max-write-bytes" else "1"
+    let v := if lens.isEmpty then "0:reqlen-run-failed"
+             else if lens.any (· > limit) then "0:large-request-exceeds-max-write-bytes" else "1"
     ((), s!"* | {v} | {boolStr (!lens.isEmpty)}")
   | _ => ((), "bad-op | - | 0")
 
